@@ -425,6 +425,10 @@ def chunk_staged(chunk, acc):
     junk = lcg(300, acc.seed + 5)
     uris = ["".join(w) for w in sequences(("/", "a", "Z", "0", "5", "m"), 5, 1)]
     uris += ["/oOo0", "/H7mp", "/TO/Kn", "/pendants", "/spy", "/oO/o0", "/submit.php", "/", "/ab.d"]
+    # request targets that *contain* a stager path behind / in front of something else: the whole string is what is
+    # classified (query, fragment, scheme and authority are part of it)
+    for core in ("/TOKn", "/oOo0", "/toy", "/spy", "/aaa5"):
+        uris += [core + "?id=1", core + "#top", core + "?", "//cdn" + core, "//a" + core, "http://10.0.0.1" + core, "x:" + core, core + ";v=1"]
     part = chunk.get("part", 0)
     uris = [u for i, u in enumerate(uris) if i % 8 == part]
     stager_budget = 50 if acc.tier == "quick" else 500
